@@ -1,7 +1,8 @@
 """C08 — running commands never leaks file descriptors, in the shell or into children.
 
 E2 (explicit histories): ALL sequences of up to 2 (thorough 3) command templates (pipelines of 1..4 stages, every
-redirection form on externals and builtins, builtins alone and in pipelines, command substitutions, here-strings,
+redirection form on externals and builtins, builtins alone and in pipelines, command substitutions (of externals, builtins, pipelines and functions), functions called / captured /
+piped / redirected (script file), here-strings,
 failing / not-found / unopenable-target commands, a background job, source, arithmetic), every builtin with every
 sequence of up to two output redirections, and every captured command `$(cmd redirections)` with every sequence of up
 to two redirections (alone and as last pipeline stage) are run in one real shell
@@ -49,6 +50,10 @@ def fdkey(fds):
     return sorted((n, t if not t.startswith('/dev/shm/') else 'SCRATCH') for n, t in fds)
 
 
+FUNC_TEMPLATES = ['ff', 'vh-argv $(ff)', 'vh-argv `ff`', 'ff | vh-io x', 'vh-io a | ff', 'ff > f1', 'ff 2>&1', 'RV=$(ff)', 'gg', 'vh-argv $(gg)']
+FUNC_HEADER = 'function ff {\n    vh-argv infn\n}\nfunction gg {\n    vh-io a | vh-io b\n    vh-argv $(vh-emit 0)\n}\n'
+
+
 def run_seq(seq):
     d = common.fresh_case_dir()
     try:
@@ -57,8 +62,15 @@ def run_seq(seq):
         for i, t in enumerate(seq):
             parts.append(t)
             parts.append('vh-argv PROBE%d' % (i + 1))
-        line = ' ; '.join(parts)
-        r = common.run_cicada(['-c', line], d, stdin=b'', timeout=30)
+        if any(t in FUNC_TEMPLATES for t in seq):
+            # functions can only be defined in a script: one command per line
+            line = FUNC_HEADER + '\n'.join(parts) + '\n'
+            with open(os.path.join(d, 'main.sh'), 'w') as f:
+                f.write(line)
+            r = common.run_cicada([os.path.join(d, 'main.sh')], d, stdin=b'', timeout=30)
+        else:
+            line = ' ; '.join(parts)
+            r = common.run_cicada(['-c', line], d, stdin=b'', timeout=30)
         probes = {}
         bad_children = []
         for x in r.records:
@@ -138,6 +150,14 @@ def run(rep, tier):
         for n in (1, 2):
             for rs in itertools.product(OUTR, repeat=n):
                 seqs.append(('%s %s' % (b, ' '.join(rs)), 'vh-argv after'))
+    # functions (called, captured, in pipelines, redirected), in a script file: alone, twice, and next to core templates
+    core = ['vh-argv a', 'vh-argv a | vh-argv b', 'vh-io t > f1', 'vh-argv $(vh-emit 0)', 'alias']
+    for t in FUNC_TEMPLATES:
+        seqs.append((t,))
+        for u in FUNC_TEMPLATES + core:
+            seqs.append((t, u))
+            if u in core:
+                seqs.append((u, t))
     # output capture combined with redirections: an external program inside $(...) / backquotes (alone and as the last
     # stage of a pipeline) with every sequence of up to two redirections, followed by a further command
     INR = OUTR + ['< g', '<<< w']
